@@ -664,6 +664,86 @@ def keys_unique__twin(e01: bool, e02: bool, e12: bool, same_names: bool, n: int)
     return not keys_unique(e01, e02, e12, same_names, n)
 
 
+def _pick(x, lo, hi):
+    while hi - lo > 1:
+        mid = (lo + hi) // 2
+        if x < mid:
+            hi = mid
+        else:
+            lo = mid
+    return lo
+
+
+def replicates(n: int, same_input: bool, s: int, via_insert: bool) -> bool:
+    """
+    The four parameters are fixed per path (bisection); the workflow code then runs outside tracing.
+    pre: 1 <= n <= 4 and -2 <= s <= 2
+    post: _ == True
+    """
+    try:
+        from crosshair.tracers import NoTracing
+    except ImportError:
+        import contextlib
+        NoTracing = contextlib.nullcontext
+    args = (_pick(n, 1, 5), bool(_pick(1 if same_input else 0, 0, 2)), _pick(s, -2, 3),
+            bool(_pick(1 if via_insert else 0, 0, 2)))
+    with NoTracing():
+        return _replicates(*args)
+
+
+def _replicates(n, same_input, s, via_insert):
+    """
+    A start task followed by n value-equal tasks (same name, same function object, equal static input unless
+    same_input is False) feeding one gather task: a workflow holds the tasks that were declared, not their values.
+    The builder and the workflow hold n + 2 tasks, the gather task gets n results, the shared function runs n times.
+    via_insert: each replicate is a one-task sub-workflow inserted with insert_workflow(sub, predecessors=start).
+    pre: 1 <= n <= 4 and -2 <= s <= 2
+    post: _ == True
+    """
+    _fresh()
+    calls = []
+
+    def start():
+        return 0
+
+    def sim(x, st):
+        calls.append(x)
+        return x + 10 + st
+
+    def gather(*a):
+        return a
+    wb = WorkflowBuilder(name='rep')
+    t0 = Task('start', start)
+    wb.add_task(t0)
+    reps = []
+    for i in range(n):
+        t = Task('sim', sim, s if same_input else s + i)
+        reps.append(t)
+        if via_insert:
+            sub = WorkflowBuilder(name='sub')
+            sub.add_task(t)
+            wb.insert_workflow(sub, predecessors=t0)
+        else:
+            wb.add_task(t, predecessors=t0)
+    wb.add_task(Task('gather', gather), predecessors=reps)
+    wf = Workflow(wb)
+    if len(wb) != n + 2 or len(wf) != n + 2 or len(wf.tasks) != n + 2:
+        return False
+    if len(wf.input_tasks) != 1 or len(wf.output_tasks) != 1 or len(wf.get_successors(t0)) != n:
+        return False
+    got = _get(wf.as_dask_dict())
+    want = tuple((s if same_input else s + i) + 10 for i in range(n))
+    return got == want and len(calls) == n
+
+
+def replicates__twin(n: int, same_input: bool, s: int, via_insert: bool) -> bool:
+    """
+    pre: 1 <= n <= 4 and -2 <= s <= 2
+    post: _ == True
+    """
+    return not replicates(n, same_input, s, via_insert)
+
+
 # ---------------------------------------------------------------------------------------------------------
 # warm-up: networkx compiles its dispatch wrappers lazily with exec(), which fails under CrossHair's tracing; run
 # every obligation once concretely at import so that all networkx entry points used above are already built.
